@@ -318,6 +318,9 @@ class Tr:
 
     def chunks(self, c=None):
         r, W, w, n = self.r, self.W, self.width, self.n
+        if w == 0 and c is None:
+            # (try_chunks_mut on a zero-width vector is a recorded finding with its own recipe)
+            return self.reader()
         if c is None:
             unit = W // math.gcd(W, w) if w else 1
             c = r.choice([unit, unit, 2 * unit, n, n + 1, max(1, n - 1), r.randrange(1, n + 2), 3 * unit])
@@ -491,6 +494,7 @@ def copy_grid_episodes(seed, wt, widths, count):
             f = r.randrange(min(per, n) + 1)
             to = r.randrange(min(per, n) + 1)
             o = other(r, W, width, olen=n + r.choice([0, -1, 3]), content=3)
+            to = min(to, o["olen"])
             room = min(n - f, o["olen"] - to)
             t.copy(name="copy_to", from_=f, to=to, cnt=r.choice([room, max(0, room - 1), r.randrange(room + 1), (W // width) + 1]), o=o)
         eps.append(t.episode("copygrid"))
@@ -615,7 +619,7 @@ def ood_episodes(seed, count):
                 elif j == 4: t.add({"op": "ruiter", "from": r.choice(far[1:]), "n": 1})
                 elif j == 5: t.add({"op": "get_unaligned", "i": r.choice(far + [0, max(0, n - 1)])})
                 elif j == 6: t.add({"op": "addr_of", "i": r.choice([n, n + 1, n + 2 * W])})
-                elif j == 7: t.chunks(c=r.choice([0, 0, 1, n + 1, 2 ** 64 - 1 if width in (0, 1) else n + 2]))
+                elif j == 7: t.chunks(c=0 if width == 0 else r.choice([0, 0, 1, n + 1, 2 ** 64 - 1, 2 ** 62 + 1, n + 2]))
                 elif j == 8: t.copy(cnt=r.choice([2 ** 64 - 1, 2 ** 63]))
                 elif j == 9 and t.form == "vec": t.add({"op": "push", "v": sorted(set(v + big[:1]))})
                 elif j == 10 and t.form == "vec": t.add({"op": "resize", "n": r.choice([n, n + 1, 0]), "v": sorted(set(v + big[-1:]))})
@@ -649,7 +653,7 @@ def ood_episodes(seed, count):
                 {"op": "new", "width": width, "n": 0}, {"op": "get", "i": 0}, {"op": "pop"}, {"op": "iter"},
                 {"op": "iter_from", "from": 0}, {"op": "iter_from", "from": 1}, {"op": "uiter", "n": 0}, {"op": "ruiter", "n": 0},
                 {"op": "ruiter", "from": 1, "n": 0}, {"op": "reset"}, {"op": "apply", "kind": "not", "m": []},
-                {"op": "chunks", "c": 1, "acts": [{"j": 0, "k": 0}]}, {"op": "chunks", "c": 0, "acts": []},
+                {"op": "chunks", "c": 1 if width else 0, "acts": [{"j": 0, "k": 0}]}, {"op": "chunks", "c": 0, "acts": []},
                 {"op": "copy_to", "from": 0, "to": 0, "n": 2 ** 64 - 1, "olen": 0, "onw": 0, "ostore": []},
                 {"op": "eq_other", "owidth": width, "olen": 0, "onw": 0, "ostore": []},
                 {"op": "get_unaligned", "i": 0}, {"op": "addr_of", "i": 0}, {"op": "set", "i": 0, "v": []},
